@@ -357,7 +357,7 @@ void WorldQ::on_send_event(const Event &e) {
   std::string dir; uint64_t n;
   switch (e.call) {
     case C_SIGNAL:
-      if (e.a == SIGTERM) { send_term_seen = true; }
+      if (e.a == SIGTERM) { if (!send_term_seen) term_t = k->clock; send_term_seen = true; }
       break;
     case C_EXIT: {
       if (e.pid != send_pid) break;
@@ -533,7 +533,7 @@ void WorldQ::after_crash() {
 
 void WorldQ::finish() {
   full_scan_check("end of run");
-  finish_c01(); finish_c03(); finish_c14(); finish_c15();
+  finish_c01(); finish_c03(); finish_c04(); finish_c14(); finish_c15();
   if (second_pid && enabled("c02") && !second_got_lock) {
     int code = (second_status >> 8) & 0xff;
     if (second_status != -1 && (second_status & 0x7f) == 0 && code != 111) violate("C02.second-daemon-status", "second qmail-send exited " + std::to_string(code) + ", expected 111");
@@ -556,20 +556,32 @@ void WorldQ::finish_c01() {
 }
 
 void WorldQ::finish_c14() {
-  if (!enabled("c14") || !plan->knobs.getb("expect_drain", false) || !k->abort_reason.empty() || !send_pid || send_term_seen) return;
+  if (!enabled("c14") || !plan->knobs.getb("expect_drain", false) || !k->abort_reason.empty() || !send_pid || term_excuses()) return;
   for (auto *m : msgs) if (m->accepted && m->phase != GMsg::FINISHED) { violate("C14.chain-not-drained", m->id + " (msg " + std::to_string(m->num) + ", sender \"" + printable(m->info_sender) + "\") is still queued: the bounce chain did not end"); break; }
 }
 
 // C15, last clause: every message leaves the queue in bounded time. Judged on plans whose scripted outcomes are all final within the
 // horizon (the generator says so with expect_drain) and with a daemon running at the end.
 void WorldQ::finish_c15() {
-  if (!enabled("c15") || !plan->knobs.getb("expect_drain", false) || !k->abort_reason.empty() || !send_pid || send_term_seen) return;
+  if (!enabled("c15") || !plan->knobs.getb("expect_drain", false) || !k->abort_reason.empty() || !send_pid || term_excuses()) return;
   for (auto *m : msgs) if (m->accepted && m->phase != GMsg::FINISHED) { violate("C15.never-leaves-queue", m->id + " (msg " + std::to_string(m->num) + ") is still in the queue at the end of the run, long after its last scheduled attempt: phase " + std::to_string((int)m->phase) + " pattern " + pat_str(scan_pattern(m->num))); break; }
+}
+
+// C04, last clause: without crashes every recipient that succeeds is delivered exactly once - not twice (judged as it happens), and not
+// never: judged here, on histories whose scripted outcomes are all final within the horizon, with a daemon running at the end
+void WorldQ::finish_c04() {
+  if (!enabled("c04") || !plan->knobs.getb("expect_drain", false) || !k->abort_reason.empty() || had_crash || had_proc_crash) return;
+  // (injected I/O failures on queue files may legitimately cost the daemon its life or a delivery attempt; a configuration file that cannot be
+  // reread costs nothing: the old configuration stays)
+  for (auto &f : plan->faults) if ((f.actor.compare(0, 10, "qmail-send") == 0 || f.actor.compare(0, 11, "qmail-clean") == 0) && (f.kind == "error" || f.kind == "short" || f.kind == "eintr" || f.kind == "null" || f.kind == "kill") && f.path.find("/control/") == std::string::npos) return;
+  if (!send_pid || term_excuses()) return;
+  for (auto *m : msgs) if (m->accepted && m->phase != GMsg::FINISHED) for (auto &r : m->rc) if (!r.k_done && !r.marked) {
+    violate("C04.not-delivered-exactly-once", m->id + " (msg " + std::to_string(m->num) + ") recipient " + r.addr + " has not been delivered or failed by the end of a crash-free run although every scripted outcome is final" + (send_term_seen ? " (the daemon got TERM " + std::to_string(k->clock - term_t) + " s ago, has nothing outstanding and is still running)" : "")); return; }
 }
 
 void WorldQ::finish_c03() {
   if (!enabled("c03") || !plan->knobs.getb("expect_drain", false) || !k->abort_reason.empty()) return;
-  if (!send_pid || send_term_seen) return;   // liveness is a statement about a running daemon
+  if (!send_pid || term_excuses()) return;   // liveness is a statement about a running daemon
   for (auto *m : msgs) if (m->accepted && m->phase != GMsg::FINISHED) {
     violate("C03.not-drained", m->id + " (msg " + std::to_string(m->num) + ") still in the queue at the end of the run: phase " + std::to_string((int)m->phase) + " pattern " + pat_str(scan_pattern(m->num)));
     break;
